@@ -230,3 +230,11 @@ func (c *Chan[T]) String() string {
 func (c *Chan[T]) InjectByClock(v T) {
 	c.buf = append(c.buf, item{v: v, vc: release(S.cur)})
 }
+
+// IsClosed / CloseNow are for harness code running inside a scheduled thread: closing without a
+// scheduling point (an environment action observed by the code under test later).
+func (c *Chan[T]) IsClosed() bool { return c.closed }
+func (c *Chan[T]) CloseNow() {
+	c.closed = true
+	c.closeVC = release(S.cur)
+}
